@@ -91,6 +91,11 @@ func (a *NilAnalysis) regKey(v ssa.Value) string {
 		return "p:" + x.Name()
 	case *ssa.ChangeType:
 		return a.regKey(x.X)
+	case *ssa.Field:
+		// a field of a struct-valued parameter (value receivers) is as immutable as the parameter
+		if base := a.regKey(x.X); strings.HasPrefix(base, "p:") {
+			return base + "." + fieldName(x.X.Type(), x.Field)
+		}
 	}
 	return "v:" + v.Name()
 }
